@@ -1331,8 +1331,8 @@ def priority_cases(n, top):
 
 
 def run(ctx):
-    ctx.search("attacher", attacher_cases(), quick=850, thorough=2000)
-    ctx.search("via", via_cases(), quick=750, thorough=2000)
+    ctx.search("attacher", attacher_cases(), quick=850, thorough=4000)
+    ctx.search("via", via_cases(), quick=750, thorough=3000)
     ctx.enumerate("attacher", priority_cases(3, 3), name="priority-orders-3")
     if not ctx.quick():
         ctx.enumerate("attacher", priority_cases(4, 4), name="priority-orders-4")
